@@ -124,7 +124,10 @@ Octa == [pts |-> << <<R(1),R(0),R(0)>>, <<R(-1),R(0),R(0)>>, <<R(0),R(2),R(0)>>,
 \* a seam: vertex 3 duplicates vertex 2 (same coordinates, another index) and one triangle uses both - a zero-length edge and a
 \* zero-area triangle are legal members of "all triangle lists"
 Seam == [pts |-> << <<R(0),R(0)>>, <<R(4),R(0)>>, <<R(4),R(3)>>, <<R(4),R(3)>>, <<R(0),R(3)>> >>, tris |-> <<<<0,1,2>>, <<1,3,2>>, <<0,3,4>>>>]
-MeshPoolBase == [seam |-> Seam, tetrafin |-> TetraFin, twinfan |-> TwinFan, grid22 |-> Grid22, grid23 |-> Grid23, fan |-> Fan, islands |-> Islands, fin |-> Fin, tetra |-> Tetra, grid3d |-> Grid3D]
+\* a triangle list may name the same vertex twice in one triangle (a collapsed triangle, listed FIRST here): it has no area, its
+\* edges are a self loop and one edge traversed both ways
+Collapsed == [pts |-> Grid23.pts, tris |-> <<<<2,2,5>>>> \o Grid23.tris]
+MeshPoolBase == [collapsed |-> Collapsed, seam |-> Seam, tetrafin |-> TetraFin, twinfan |-> TwinFan, grid22 |-> Grid22, grid23 |-> Grid23, fan |-> Fan, islands |-> Islands, fin |-> Fin, tetra |-> Tetra, grid3d |-> Grid3D]
 MeshPool == IF Wide THEN MeshPoolBase @@ [grid33 |-> Grid33, octa |-> Octa] ELSE MeshPoolBase
 MeshClasses == {"TriMesh", "ColouredTriMesh", "TexturedTriMesh"}
 \* masking: kept triangles = all three vertices kept; vertices without a kept triangle are dropped; order-preserving renumbering
@@ -221,7 +224,7 @@ TMaskSound == case.kind = "tmask" => LET m == MeshPool[case.mesh] r == TriMaskRe
 \* boundary: a closed mesh has no boundary triangle; an isolated triangle is boundary
 GeomSound == case.kind = "geom" => LET m == MeshPool[case.mesh] g == MeshGeom(m) IN
    /\ \A i \in 1..Len(m.tris) : RLe(Z0, g.areas2[i])
-   /\ (case.mesh # "seam" => \A i \in 1..Len(m.tris) : RLt(Z0, g.areas2[i]))                \* degenerate only where meant
+   /\ (case.mesh \notin {"seam", "collapsed"} => \A i \in 1..Len(m.tris) : RLt(Z0, g.areas2[i]))                \* degenerate only where meant
    /\ (case.mesh = "seam" => g.areas2[2] = Z0)
    /\ \A i \in 1..Len(m.tris) : Len(m.pts[1]) = 3 => Dot(g.normals[i], VSub(m.pts[m.tris[i][2]+1], m.pts[m.tris[i][1]+1])) = Z0
    /\ (case.mesh \in {"tetra", "octa"} => \A i \in 1..Len(m.tris) : ~g.boundary[i])
